@@ -249,11 +249,89 @@ pub fn run(ctx: &Ctx) {
         w.base_snap = Some(maps::snapshot());
     }
     w.base_exec_anon = exec_anon_pages();
+    // (C12) the one primitive a user may fake that the release path itself depends on: `munmap`. Faked
+    // alone, its own trampoline must still be released (the function is restored before it is needed).
+    if mons.c12 && ctx.from == 0 && ctx.only.is_none() && !w.under_valgrind {
+        let idx = 1_500_000_000 + ctx.shard;
+        out::intent(idx, "special/fake-munmap-itself", &J::new().s("crash_sig", "fake-munmap-itself"));
+        static FAKE_MUNMAP_CALLS: std::sync::atomic::AtomicU64 = std::sync::atomic::AtomicU64::new(0);
+        unsafe extern "C" fn fake_munmap(_a: *mut libc::c_void, _l: libc::size_t) -> libc::c_int {
+            FAKE_MUNMAP_CALLS.fetch_add(1, Ordering::SeqCst);
+            0
+        }
+        let before = exec_anon_pages();
+        let mut bad = None;
+        for _ in 0..20 {
+            let mut inj = ip::lib(InjectorPP::new);
+            ip::lib(|| {
+                inj.when_called(injectorpp::func!(unsafe{} extern "C" fn (libc::munmap)(*mut libc::c_void, libc::size_t) -> libc::c_int))
+                    .will_execute_raw(injectorpp::func!(unsafe{} extern "C" fn (fake_munmap)(*mut libc::c_void, libc::size_t) -> libc::c_int))
+            });
+            ip::lib(|| drop(inj));
+        }
+        let after = exec_anon_pages();
+        if after != before {
+            bad = Some(format!("{} executable anonymous pages left after 20 cycles that fake munmap itself", after.difference(&before).count()));
+        }
+        match bad {
+            None => out::outcome(idx, "special/fake-munmap-itself", Verdict::Held, "", &J::new().n("cycles", 20).n("fake_entered", FAKE_MUNMAP_CALLS.load(Ordering::SeqCst))),
+            Some(b) => {
+                out::outcome(idx, "special/fake-munmap-itself", Verdict::Violated, "c12:trampoline-of-a-faked-munmap-not-released", &J::new().s("what", &b).n("fake_entered", FAKE_MUNMAP_CALLS.load(Ordering::SeqCst)));
+                std::process::exit(75);
+            }
+        }
+    }
 
+    // (C03) a second thread keeps executing the untouched neighbour functions (same page as many
+    // targets) for the whole run: they must stay executable and original *during* installs and removals
+    let stop = std::sync::Arc::new(std::sync::atomic::AtomicBool::new(false));
+    let spin_calls = std::sync::Arc::new(std::sync::atomic::AtomicU64::new(0));
+    let spin_bad = std::sync::Arc::new(std::sync::atomic::AtomicU64::new(0));
+    let spinner = if mons.c03 && !w.pool.neighbours.is_empty() && ctx.get_u("spinner", 1) == 1 {
+        let nb = w.pool.neighbours.clone();
+        let (stop2, calls2, bad2) = (stop.clone(), spin_calls.clone(), spin_bad.clone());
+        Some(std::thread::spawn(move || {
+            while !stop2.load(Ordering::Relaxed) {
+                for &(a, id) in &nb {
+                    if unsafe { call0(a) } as u32 != id {
+                        bad2.fetch_add(1, Ordering::SeqCst);
+                    }
+                }
+                calls2.fetch_add(nb.len() as u64, Ordering::Relaxed);
+            }
+        }))
+    } else {
+        None
+    };
+    let mut regenerated = 0u64;
     let mut decided = 0u64;
     for idx in 0..ncases {
         if !ctx.mine(idx) {
             continue;
+        }
+        // every so often the code of one synthetic target is re-emitted in place (as a JIT or a code
+        // generator would): later lifetimes must restore THAT code, not an older snapshot of the address
+        if (mons.c02 || mons.c03) && idx % 7 == 3 {
+            let cands: Vec<usize> = w.pool.targets.iter().enumerate().filter(|(_, t)| t.synthetic && t.fam == Fam::I32 && t.addr % 16 == 0 && t.orig >= 0x2000 && t.orig < 0x3_0000 && bytes_at(t.addr, 1) == [0xB8] && bytes_at(t.addr + 5, 1) == [0xC3]).map(|(i, _)| i).collect();
+            if !cands.is_empty() {
+                let mut r2 = Rng::new(ctx.seed ^ hash64(idx ^ 0x4E6E));
+                let ti = *r2.pick(&cands);
+                let addr = w.pool.targets[ti].addr;
+                let new_id = (w.pool.targets[ti].orig as u32) ^ 0x1_0000;
+                w.pool.synth.arena.protect(addr, 8, RWX);
+                w.pool.synth.arena.write(addr + 1, &new_id.to_le_bytes());
+                w.pool.synth.arena.protect_all(RX);
+                w.pool.targets[ti].orig = new_id as i64;
+                // the 32-byte images overlap neighbouring slots: refresh all of them
+                for k in 0..w.pool.targets.len() {
+                    w.images[k] = img(w.pool.targets[k].addr);
+                }
+                w.arena_image = bytes_at(w.pool.synth.arena.base, w.pool.synth.arena.len);
+                if mons.c03 {
+                    w.base_snap = Some(maps::snapshot());
+                }
+                regenerated += 1;
+            }
         }
         let mut rng = Rng::new(ctx.seed ^ hash64(idx.wrapping_mul(0x9E37) ^ 0xC02C02));
         let plans: Vec<Plan> = (0..batch).map(|_| gen_plan(&mut rng, &w.pool)).collect();
@@ -282,7 +360,16 @@ pub fn run(ctx: &Ctx) {
             std::process::exit(75);
         }
     }
-    out::summary(&summary_json(&w, decided));
+    stop.store(true, Ordering::SeqCst);
+    if let Some(h) = spinner {
+        let _ = h.join();
+    }
+    let mut sj = summary_json(&w, decided).n("synthetic_targets_regenerated_in_place", regenerated).n("neighbour_calls_by_the_background_thread", spin_calls.load(Ordering::SeqCst));
+    if spin_bad.load(Ordering::SeqCst) > 0 {
+        out::outcome(2_000_000_000 + ctx.shard, "background-thread/neighbours", Verdict::Violated, "c03:neighbour-function-changed-behaviour-on-another-thread", &J::new().n("bad_calls", spin_bad.load(Ordering::SeqCst)));
+        sj = sj.n("background_thread_bad_calls", spin_bad.load(Ordering::SeqCst));
+    }
+    out::summary(&sj);
 }
 
 fn summary_json(w: &World, decided: u64) -> J {
